@@ -17,7 +17,7 @@ ID = 'C10'
 
 MANIFEST = dict(
     technique='explicit-state enumeration of a baseline/heights/interpolation/line-height/scale lattice on the real cropper over a coordinate image (the crop is the sampled source coordinate of every output pixel); geometric oracle + fast-vs-general-path and shift differentials',
-    text='Bounded exhaustive: every baseline of the lattice (3 start positions x dx 20..120 x 9 slopes x 6 point configurations) x heights x interpolation order {0,1,2} x line height x scale (about 1.3e5 crops quick, 1.1e6 thorough). For each crop: exact height, width = length x target height / scaled line height, first/last column at the first/last baseline point, uniform column spacing, rows perpendicular and running linearly from -ascender to +descender, never the blank fallback; the partly-outside (general) path must agree with the same line shifted inside a larger canvas (fast path); degenerate baselines must give a crop or a blank image of the configured height, never an error (crop and LineCropper). Added sub-sweeps: baselines held as unsigned / int32 / float32 arrays, numpy zero heights, every line cropped twice, a long-lived cropper shared by all cases of a worker (same crop as a fresh one, earlier crops untouched), LineCropper on a shifted canvas, densely sampled baselines of 33-160 points, and a geometric decision whether blank samples of an inside line are a violation.',
+    text='Bounded exhaustive: every baseline of the lattice (3 start positions x dx 20..120 x 9 slopes x 6 point configurations) x heights x interpolation order {0,1,2} x line height x scale (about 1.3e5 crops quick, 1.1e6 thorough). For each crop: exact height, width = length x target height / scaled line height, first/last column at the first/last baseline point, uniform column spacing, rows perpendicular and running linearly from -ascender to +descender, never the blank fallback; the partly-outside (general) path must agree with the same line shifted inside a larger canvas (fast path); degenerate baselines must give a crop or a blank image of the configured height, never an error (crop and LineCropper). Added sub-sweeps: baselines held as unsigned / int32 / float32 arrays, numpy zero heights, every line cropped twice, a long-lived cropper shared by all cases of a worker (same crop as a fresh one, earlier crops untouched), LineCropper on a shifted canvas, densely sampled baselines of 33-160 points, and a geometric decision whether blank samples of an inside line are a violation. Lines whose band touches the page by exactly one row / column / corner sample (fast vs general path), requested a second time with the same baseline array moved in place.',
     note='Integer baseline coordinates (the cropper truncates them); mild curvature only (tolerance grows with the distance of the points from their chord); tolerances: 0.3 px across, 1.5 px along the baseline for straight lines.',
     ref='3/C10')
 
